@@ -372,7 +372,8 @@ func (g *G) QVal() string {
 	case 5:
 		return "0." + strconv.Itoa(g.R.Intn(10)) + strconv.Itoa(g.R.Intn(10))
 	case 6:
-		return "1.1"
+		// values at the edges of the documented range
+		return g.R.Pick([]string{"1.1", "0.999", "0.99", "0.9", "0.001", "0.000", "0.00", "0.0", "1.00", "1.001", "1.01", "0.9999", "0.100", "0.010", "00.5", "01", "1.", "0."})
 	case 7:
 		return "2"
 	case 8:
